@@ -1,4 +1,5 @@
 import Hgxv.Model.C12
+import Hgxv.Model.C12Hist
 import Hgxv.Proofs.C12LinkC02
 import Mathlib.Algebra.Order.Field.Rat
 import Mathlib.Algebra.Order.Field.Basic
@@ -433,3 +434,73 @@ example : C02.maxSize C12.exampleObject = some 3 ∧ signature (listing C12.exam
     C02.numEdges C12.exampleObject = 6 ∧ signature (listing C12.exampleObject) 2 = [5] ∧
     (C02.edges C12.exampleObject (.size 2) true).map List.length = some 5 ∧
     C02.maxSize (C02.clear C12.exampleObject) = none := by decide
+
+/-! ## the history the driver runs (strengthening round d)
+
+`Driver/C12.lean` executes the calls of a history - constructor, copies, insertions, REJECTED calls, removals,
+`remove_node` with both `keep_edges` values - with `C02.step` and hands the listings of a slot to the routines above. -/
+
+/-- **The history the driver runs is the history of the link theorems.**  `histRun` (one `C02.step` per line of the
+protocol, REJECTED calls included - they leave the state as it was and answer `rej`) is `C02.runCmds`; the listings the
+driver hands to the routines are `listing s` / `C02.nodes s` of the link theorems. -/
+theorem C12_hist_run (st : C02.State) (cs : List C02.Cmd) :
+    histRun st cs = C02.runCmds st cs ∧ ∀ s : C02.Store, histListing s = listing s ∧ histNodes s = C02.nodes s := by
+  refine ⟨?_, fun s => ⟨rfl, rfl⟩⟩
+  induction cs generalizing st with
+  | nil => rfl
+  | cons c cs ih => exact ih _
+
+/-- **What the driver answers after any history satisfies the property.**  For every sequence of constructor calls,
+copies and mutating calls whose `add_edge` arguments have duplicate-free, disjoint, non-empty sides (`Cmd.WF`, the
+property's quantifier; nothing is asked of weights, of the presence of what is removed, of the nodes handed to
+`remove_node`: those calls may be rejected), for the object in any slot, every bound and size:
+exact ≤ strong ≤ weak, within [0, 1]; the degree sequences list every node of `get_nodes()` once, in order, with the
+number of listed hyperedges passing the filter that have it among their sources / targets; the cells of the signature
+sum to the number of listed hyperedges within the bound. -/
+theorem C12_hist_measures (cs : List C02.Cmd) (hcs : ∀ c ∈ cs, c.WF) (slot : Nat) (s : C02.Store)
+    (hs : AL.get? (histRun [] cs) slot = some s) (m k : Nat) (size : Option Nat) :
+    reciprocity isExact (histListing s) m k ≤ reciprocity isStrong (histListing s) m k ∧
+    reciprocity isStrong (histListing s) m k ≤ reciprocity isWeak (histListing s) m k ∧
+    0 ≤ reciprocity isExact (histListing s) m k ∧ reciprocity isWeak (histListing s) m k ≤ 1 ∧
+    (inDegreeSeq (histNodes s) (histListing s) size).map (·.1) = histNodes s ∧
+    (outDegreeSeq (histNodes s) (histListing s) size).map (·.1) = histNodes s ∧
+    (histNodes s).Nodup ∧ (histListing s).Nodup ∧
+    (signature (histListing s) m).sum = (histListing s).countP (fun e => esize e ≤ m) := by
+  rw [(C12_hist_run [] cs).1] at hs
+  have hr : ReachableD s := ⟨cs, slot, hcs, hs⟩
+  have o := C12_link_order s hr m k
+  have l := C12_link_listing cs hcs slot s hs
+  refine ⟨o.1, o.2.1, o.2.2.1, o.2.2.2.1, ?_, ?_, l.2.2.2.2.2.1, l.2.2.2.2.1, ?_⟩
+  · simp [inDegreeSeq, histNodes, List.map_map, Function.comp_def]
+  · simp [outDegreeSeq, histNodes, List.map_map, Function.comp_def]
+  · exact C12_signature_sum (listing s) m (fun e he => by
+      have := l.2.2.2.2.2.2 e he
+      exact ⟨this.1, this.2.1⟩)
+
+/-! ### non-vacuity: a rejected call, its retry, and a shrunk hyperedge that coincides with a stored one
+
+`add_edge(((3,),(1,)), weight=2)` on a hypergraph that is not weighted is REJECTED and leaves no trace; the retry
+without weight inserts it; `remove_node(2, keep_edges=True)` shrinks `((1,2),(3,))` onto the stored `((1,),(3,))`:
+ONE hyperedge, counted once by the degrees. -/
+def C12.rejectHistory : List C02.Cmd :=
+  [ .new 0 false none none none none none,
+    .op 0 (.addEdge (.ofLists [1, 2] [3]) none none),
+    .op 0 (.addEdge (.ofLists [1] [3]) none none),
+    .op 0 (.addEdge (.ofLists [3] [1]) (some 8) none),
+    .op 0 (.addEdge (.ofLists [3] [1]) none none),
+    .op 0 (.removeNode 2 true) ]
+
+example : (∀ c ∈ C12.rejectHistory, c.WF) := C02.cmds_WF_of_ok _ (by decide)
+/-- the rejected call answers `rej` and changes nothing -/
+example : (C02.step (histRun [] (C12.rejectHistory.take 3)) (.op 0 (.addEdge (.ofLists [3] [1]) (some 8) none))) =
+    (histRun [] (C12.rejectHistory.take 3), .rej) := by decide
+example : (AL.get? (histRun [] (C12.rejectHistory.take 4)) 0).map histListing = some [([1, 2], [3]), ([1], [3])] ∧
+    (AL.get? (histRun [] C12.rejectHistory) 0).map histListing = some [([1], [3]), ([3], [1])] ∧
+    (AL.get? (histRun [] C12.rejectHistory) 0).map histNodes = some [1, 3] ∧
+    (AL.get? (histRun [] C12.rejectHistory) 0).map (fun s => inDegreeSeq (histNodes s) (histListing s) none) =
+      some [(1, 1), (3, 1)] ∧
+    (AL.get? (histRun [] C12.rejectHistory) 0).map (fun s => outDegreeSeq (histNodes s) (histListing s) (some 2)) =
+      some [(1, 1), (3, 1)] ∧
+    (AL.get? (histRun [] C12.rejectHistory) 0).map (fun s => signature (histListing s) 3) = some [2, 0, 0, 0] ∧
+    (AL.get? (histRun [] C12.rejectHistory) 0).map (fun s => recCount isExact (bounded 3 (histListing s)) 2) = some 2 := by
+  decide
